@@ -70,7 +70,7 @@ Settle(d, W) ==                                   \* query, then start everythin
   IN StartOffers(d, W1, qr.offers)
 
 RenderIfDone(d, W, rnd) ==
-  IF W.S.wf \in Completed /\ ~rnd
+  IF W.S.wf \in Completed      \* after every event once completed (rnd kept for the view only)
   THEN LET s1 == Render(d, W.S)
        IN [W EXCEPT !.S = s1, !.steps = Append(@, StepRec(Call("render", "none", -1, -1, "none", <<2>>, <<2>>), "ok",
                                                           Obs(s1, W.acts, FALSE, << >>)))]
